@@ -87,6 +87,27 @@ def z3val_to_py(v):
     return str(v)
 
 
+def describe(v, depth=0):
+    """Safe rendering of possibly-symbolic values (never calls str()/repr() on CrossHair proxies)."""
+    with NoTracing():
+        var = getattr(v, "var", None)
+        if isinstance(var, z3.ExprRef):
+            t = str(var).replace("\n", " ")
+            return t[:160]
+        if isinstance(v, (int, float, bool, str)) or v is None:
+            return v
+        if isinstance(v, fractions.Fraction):
+            return float(v)
+        if isinstance(v, dict) and depth < 4:
+            return {str(k): describe(x, depth + 1) for k, x in v.items()}
+        if isinstance(v, (list, tuple)) and depth < 4:
+            return [describe(x, depth + 1) for x in v]
+        try:
+            return type(v).__name__
+        except Exception:
+            return "?"
+
+
 def _jsonable(v):
     if isinstance(v, fractions.Fraction):
         return float(v) if v.denominator != 1 else int(v)
@@ -224,6 +245,7 @@ class SymCtx:
         symbolic statement of *violation by a margin*, used to extract the
         counterexample; holds-verdicts always come from the exact goal."""
         with NoTracing():
+            info = {k: describe(x) for k, x in info.items()}
             self.result.goals_reached += 1
             if self.twin:
                 goal, robust = False, None
